@@ -92,9 +92,9 @@ class FiniteRandomVariable(SingleSweep):
         prev_state = random.getstate()
         # Generate self.length random values starting with the seed
         random.seed(self.seed)
-        random_values = random.choices(
-            list(self.distribution.keys()), list(self.distribution.values()), k=self.length
-        )
+        # Sort so that equal sweeps (equality ignores dict order) yield equal samples
+        values, weights = zip(*sorted(self.distribution.items()))
+        random_values = random.choices(values, weights, k=self.length)
         # Restore the RNG state
         random.setstate(prev_state)
         return iter(random_values)
